@@ -65,6 +65,7 @@ public:
   [[nodiscard]] bool try_mark_active() noexcept {
     void* oldValue = producer_inactive_value();
     UNIFEX_VERIF_YIELD("sched.aq.a_cas");
+    UNIFEX_VERIF_YIELD("mutex.q.tma");
     return head_.compare_exchange_strong(
         oldValue,
         nullptr,
@@ -84,6 +85,7 @@ public:
   [[nodiscard]] bool enqueue_or_mark_active(Item* item) noexcept {
     void* const inactive = producer_inactive_value();
     UNIFEX_VERIF_YIELD("sched.aq.m_load");
+    UNIFEX_VERIF_YIELD("mutex.q.eoma");
     void* oldValue = head_.load(std::memory_order_relaxed);
     void* newValue;
     do {
@@ -94,6 +96,7 @@ public:
         item->*Next = static_cast<Item*>(oldValue);
         newValue = item;
       }
+      UNIFEX_VERIF_YIELD("mutex.q.eoma.cas");
     } while (!head_.compare_exchange_weak(
         oldValue, newValue, std::memory_order_acq_rel));
     return oldValue != inactive;
@@ -155,9 +158,11 @@ public:
   [[nodiscard]] bool try_mark_inactive() noexcept {
     void* const inactive = producer_inactive_value();
     UNIFEX_VERIF_YIELD("sched.aq.t_load");
+    UNIFEX_VERIF_YIELD("mutex.q.tmi");
     void* oldValue = head_.load(std::memory_order_relaxed);
     if (oldValue == nullptr) {
       UNIFEX_VERIF_YIELD("sched.aq.t_cas");
+      UNIFEX_VERIF_YIELD("mutex.q.tmi.cas");
       if (head_.compare_exchange_strong(
               oldValue,
               inactive,
@@ -185,6 +190,7 @@ public:
     }
 
     UNIFEX_VERIF_YIELD("sched.aq.t_xchg");
+    UNIFEX_VERIF_YIELD("mutex.q.xchg");
     void* oldValue = head_.exchange(nullptr, std::memory_order_acquire);
     UNIFEX_ASSERT(oldValue != nullptr);
     UNIFEX_ASSERT(oldValue != producer_inactive_value());
